@@ -23,7 +23,7 @@
 from .sampling_method import SamplingMethod
 from casadi import sumsqr, horzcat, vertcat, linspace, substitute, MX, evalf,\
                    vcat, collocation_points, collocation_interpolators, hcat,\
-                   repmat, DM, sum2, mtimes, vvcat, depends_on, Function
+                   repmat, DM, sum2, mtimes, vvcat, depends_on, Function, symvar, veccat
 from .casadi_helpers import get_ranges_dict, HashOrderedDict, HashDict, is_numeric
 import casadi as ca
 from itertools import repeat
@@ -344,33 +344,15 @@ class DirectCollocation(SamplingMethod):
         all_args = vvcat(args)
         _,states = stage.sample(stage.x,grid='control')
 
-        name_in = None
-        if len(margs)>0 and isinstance(margs[0], list) and np.all([isinstance(e,str) for e in margs[0]]):
-            name_in = list(margs[0])
-
-        add_xc = depends_on(all_args, states) and not depends_on(all_args, self.Xc_vars)
-        add_zc = add_zc and not depends_on(all_args, self.Zc_vars_rest)
-        inner_args = list(args)
+        # symvar: scaled quantities read (scale * symbol)
+        add_xc = depends_on(all_args, veccat(*symvar(states))) and not depends_on(all_args, veccat(*symvar(self.Xc_vars)))
+        add_zc = add_zc and not depends_on(all_args, veccat(*symvar(self.Zc_vars_rest)))
+        defaults = []
         if add_xc:
-            inner_args += [self.Xc_vars]
-            if name_in: name_in += ["Xc_vars"]
+            defaults.append((self.Xc_vars, self.Xc_vars0))
         if add_zc:
-            inner_args += [self.Zc_vars_rest]
-            if name_in: name_in += ["Zc_vars_rest"]
-
-        inner_margs = list(margs)
-        if name_in:
-            inner_margs[0] = name_in
-
-        f = SamplingMethod.to_function(self, stage, name, inner_args, results, *inner_margs)
-        f_args = f.mx_in()[:len(args)]
-        call_args = list(f_args)
-        if add_xc:
-            call_args+=[self.Xc_vars0]
-        if add_zc:
-            call_args+=[self.Zc0]
-
-        return Function(name, f_args, f.call(call_args,True,False), *margs)
+            defaults.append((self.Zc_vars_rest, self.Zc0))
+        return SamplingMethod.to_function(self, stage, name, args, results, *margs, defaults=defaults)
 
 
 
